@@ -96,8 +96,14 @@ func c18PreRow(i int) model.Row {
 // the unique tag is longer than any fixed-size key buffer somebody might introduce and differs only at its end
 var c18LongTag = strings.Repeat("tag-", 20)
 
+// c18Epoch numbers the executions of a worker process. Every row carries one column whose NAME and value are new in
+// each execution: whatever the code under test keeps in process-wide tables (interned strings, memoised keys) is then
+// cold in every explored schedule, not only in the very first execution of the process.
+var c18Epoch int
+
 func c18Row(t, j int) model.Row {
-	return model.Row{"id": fmt.Sprintf("%st%d_%d", c18LongTag, t, j), "c": "shared", "d": "thread" + strconv.Itoa(t)}
+	e := strconv.Itoa(c18Epoch)
+	return model.Row{"id": fmt.Sprintf("%st%d_%d", c18LongTag, t, j), "c": "shared", "d": "thread" + strconv.Itoa(t), "e" + e: "v" + e}
 }
 
 type c18Obs struct {
@@ -110,6 +116,7 @@ func c18Scenario(ctx *rt.Ctx, p c18Params, lastOutcome *string) vsched.Scenario 
 		return c18Separate(ctx, p, lastOutcome)
 	}
 	return func() ([]func(), func(*vsched.Result) string) {
+		c18Epoch++
 		w := newC18World(ctx.Scratch, p)
 		obs := &c18Obs{ids: make([][]uint32, p.K), errs: make([]error, p.K)}
 		var bodies []func()
@@ -138,6 +145,7 @@ func c18Scenario(ctx *rt.Ctx, p c18Params, lastOutcome *string) vsched.Scenario 
 // on its own (ids 0..r-1, flushed index equals the sequential model of its rows).
 func c18Separate(ctx *rt.Ctx, p c18Params, lastOutcome *string) vsched.Scenario {
 	return func() ([]func(), func(*vsched.Result) string) {
+		c18Epoch++
 		ws := make([]*c18World, p.K)
 		obs := make([]*c18Obs, p.K)
 		var bodies []func()
